@@ -29,7 +29,7 @@ def rebuild(st):
 
 
 OBSERVED = ["ptm1", "ptm2", "ptm1", "ptm2", "dpspr_zero", "hs", "hrms", "tm01", "tm02", "dm", "dspr", "dp", "dpm", "tp", "oned", "momf", "uss", "crsd",
-            "stats", "smooth", "interp", "rotate", "ptm3", "ptm4", "to_energy", "swe", "hmax", "split"]
+            "stats", "stats_limits", "stats_limits", "smooth", "interp", "rotate", "ptm3", "ptm4", "to_energy", "swe", "hmax", "split"]
 
 
 def observe(obj, obs):
@@ -50,6 +50,8 @@ def observe(obj, obs):
         r = acc.momf(kw["n"])
     elif name == "split":
         r = acc.split(fmin=kw["fmin"], fmax=kw["fmax"])
+    elif name == "stats_limits":
+        r = acc.stats(["hs", "tm01", "dm"], **kw)
     elif name in ("ptm1", "ptm2"):
         da = obj["efth"] if isinstance(obj, xr.Dataset) else obj
         r = getattr(da.spec.partition, name)(xr.DataArray(14.0), xr.DataArray(200.0), xr.DataArray(30.0), swells=2)
